@@ -515,4 +515,1021 @@ Proof.
     intros o Ho. apply in_map_iff in Ho. destruct Ho as (f & <- & Hf'). apply crossedb_false, Hpre. exact Hf'.
 Qed.
 
+
+(* ------------------------------------------------------------------ lambda_-1: early rejection *)
+
+Lemma rev_cons_shape {A} (l : list A) x t : rev l = x :: t -> l = rev t ++ [x].
+Proof. intros E. rewrite <- (rev_involutive l), E. reflexivity. Qed.
+
+(* lm1_early = "start_cond is {L, R} and the path ends at or below lambda_-1" *)
+Lemma lm1_early_spec e0 p :
+  e_i0 e0 <= e_i1 e0 <= e_i2 e0 ->
+  (lm1_early e0 p = true <->
+   e_scL e0 = true /\ e_scR e0 = true /\ exists pre o, orders p = pre ++ [o] /\ o <= e_i0 e0).
+Proof.
+  intros Hord. unfold lm1_early, check_interfaces, ordermin, ordermax, intf_of.
+  destruct (orders p) as [|a rest] eqn:Ho.
+  { split; [rewrite andb_false_r; discriminate|]. intros (_ & _ & pre & o & E & _). destruct pre; discriminate. }
+  destruct (argmin_from a 0 1 rest) as [omin imin]. destruct (argmax_from a 0 1 rest) as [omax imax].
+  rewrite zmin3, zmax3 by exact Hord. cbn [ci_end]. unfold end_point. rewrite Ho.
+  destruct (Z.ltb_spec (e_i2 e0) (e_i0 e0)); [lia|].
+  destruct (rev (a :: rest)) as [|x t] eqn:Er.
+  { apply (f_equal (@length Z)) in Er. rewrite rev_length in Er. discriminate. }
+  apply rev_cons_shape in Er. cbn [opt_is_L]. unfold classify.
+  split.
+  - intros HH. apply andb_true_iff in HH as [H1 H3]. apply andb_true_iff in H1 as [H1 H2].
+    split; [exact H1|]. split; [exact H2|]. exists (rev t), x. split; [exact Er|].
+    destruct (Z.leb_spec x (e_i0 e0)); [assumption|]. destruct (e_i2 e0 <=? x); discriminate.
+  - intros (H1 & H2 & pre & o & E & Hle). rewrite H1, H2. cbn [andb].
+    rewrite Er in E. apply app_inj_tail in E as [_ ->].
+    destruct (Z.leb_spec o (e_i0 e0)); [reflexivity|lia].
+Qed.
+
+Theorem lm1_reject e0 e1 old0 old1 :
+  e_i0 e0 <= e_i1 e0 <= e_i2 e0 ->
+  lm1_early e0 (sp_path old0) = true ->
+  forall streams draws,
+    retis_swap_zero dumpf e0 e1 old0 old1 streams draws = Out false old0 old1 ZML [] 0.
+Proof.
+  intros Hord Hearly streams draws. unfold retis_swap_zero. rewrite Hearly.
+  apply (lm1_early_spec _ _ Hord) in Hearly. destruct Hearly as (_ & _ & pre & o & E & _).
+  unfold end_point. destruct (Z.ltb_spec (e_i2 e0) (e_i0 e0)); [lia|].
+  rewrite E, rev_app_distr. reflexivity.
+Qed.
+
+(* conversely the early exit is the only way to the status 0-L with the old paths returned
+   untouched and no engine call: an accepted swap never has lm1_early (see retis_acc_shape) *)
+
 End WithDump.
+
+(* ------------------------------------------------------------------ QuanTIS: the energy rule *)
+
+Lemma quantis_exponent_signs b0 b1 V0r0 V0r1 V1r1 V1r0 :
+  (quantis_exponent b0 b1 V0r0 V0r1 V1r1 V1r0 == b0 * (V0r0 - V0r1) - b1 * (V1r0 - V1r1))%Q.
+Proof. unfold quantis_exponent. ring. Qed.
+
+Lemma qle_min1 u x : Qle_bool u (qmin1 x) = true <-> (u <= 1 /\ u <= x)%Q.
+Proof.
+  unfold qmin1. destruct (Qle_bool 1 x) eqn:E; rewrite Qle_bool_iff.
+  - apply Qle_bool_iff in E. split; [intros H; split; [exact H|eapply Qle_trans; eassumption]|intros [H _]; exact H].
+  - assert (Hx : (x < 1)%Q).
+    { apply Qnot_le_lt. intros H. apply Qle_bool_iff in H. congruence. }
+    split; [intros H; split; [|exact H]; eapply Qle_trans; [exact H|apply Qlt_le_weak; exact Hx]|intros [_ H]; exact H].
+Qed.
+
+Section Quantis.
+Variable vpot_of : Z -> option Q.
+Variable expf : Q -> Q.
+
+Ltac case_ifs := repeat match goal with |- context [if ?c then _ else _] => destruct c end.
+
+Lemma quantis_complete_status e0 e1 tmp0 tmp1 sc streams calls nd acc p0 p1 st calls' nd' :
+  quantis_complete e0 e1 tmp0 tmp1 sc streams calls nd = Out acc p0 p1 st calls' nd' ->
+  st <> QEA /\ nd' = nd /\ (acc = true -> st = ACC) /\ exists extra, calls' = calls ++ extra.
+Proof.
+  unfold quantis_complete.
+  destruct (first_frame tmp0); [|discriminate].
+  destruct (negb sc).
+  { intros H; inversion H; subst. split; [discriminate|]. split; [reflexivity|]. split; [discriminate|].
+    exists []. symmetry; apply app_nil_r. }
+  destruct (engine_call _ streams _ true _ _) as [[[back0 str1] c0]|]; [|discriminate].
+  match goal with |- context [is_acc ?x] => set (st0 := x) end.
+  assert (Hst0 : st0 <> QEA) by (unfold st0; case_ifs; discriminate).
+  destruct (is_acc st0) eqn:A0; cbn [negb].
+  2:{ intros H; inversion H; subst. split; [exact Hst0|]. split; [reflexivity|]. split; [discriminate|].
+      eexists; reflexivity. }
+  destruct (last_frame tmp1); [|discriminate].
+  destruct (ford _ <? _).
+  { intros H; inversion H; subst. split; [discriminate|]. split; [reflexivity|]. split; [discriminate|].
+    eexists; reflexivity. }
+  destruct (engine_call _ str1 _ false _ _) as [[[forw1 str2] c1]|]; [|discriminate].
+  destruct (start_point _ _ _) as [sp|]; [|discriminate].
+  match goal with |- context [is_acc ?x] => set (st1 := x) end.
+  assert (Hst1 : st1 <> QEA) by (unfold st1; case_ifs; discriminate).
+  destruct (is_acc st1) eqn:A1; cbn [negb].
+  - intros H; inversion H; subst. split; [discriminate|]. split; [reflexivity|]. split; [reflexivity|].
+    rewrite <- app_assoc. eexists; reflexivity.
+  - intros H; inversion H; subst. split; [exact Hst1|]. split; [reflexivity|]. split; [discriminate|].
+    rewrite <- app_assoc. eexists; reflexivity.
+Qed.
+
+(* If the move got as far as drawing its random number (both one-step crossing conditions
+   held), the energies are read from old[0-][-2], the engine's frames for old[0+][0] and
+   old[0-][-2], and old[0+][0]; the move passes the energy rule (status other than QEA) iff
+   accept_all or  u <= 1 and u <= E  with  E = exp(beta0*(V0(r0)-V0(r1)) - beta1*(V1(r0)-V1(r1))). *)
+Theorem quantis_energy_rule e0 e1 b0 b1 old0 old1 streams draws acc p0 p1 st calls :
+  quantis_swap_zero vpot_of expf e0 e1 b0 b1 old0 old1 streams draws = Out acc p0 p1 st calls 1 ->
+  exists u drest f10 f0m2 g0 r0 g1 r1 srest V0r0 V0r1 V1r1 V1r0 c0 c1 crest,
+    draws = u :: drest /\
+    first_frame (sp_path old1) = Some f10 /\ last2_frame (sp_path old0) = Some f0m2 /\
+    streams = (g0 :: r0) :: (g1 :: r1) :: srest /\
+    calls = c0 :: c1 :: crest /\ c_init c0 = copy_frame 0 f10 /\ c_init c1 = copy_frame 0 f0m2 /\
+    vpot vpot_of f0m2 = Some V0r0 /\ vpot vpot_of g0 = Some V0r1 /\
+    vpot vpot_of f10 = Some V1r1 /\ vpot vpot_of g1 = Some V1r0 /\
+    let E := expf (quantis_exponent b0 b1 V0r0 V0r1 V1r1 V1r0) in
+    (st <> QEA <-> (e_accept_all e0 = true \/ (u <= 1 /\ u <= E)%Q)) /\
+    (acc = true -> st = ACC).
+Proof.
+  unfold quantis_swap_zero.
+  destruct (first_frame (sp_path old1)) as [f10|] eqn:Ef10; [|discriminate].
+  destruct (last2_frame (sp_path old0)) as [f0m2|] eqn:Ef0m2; [|discriminate].
+  destruct (is_none _ || is_none _); [intros H; inversion H|].
+  destruct (negb _ || negb _); [intros H; inversion H|].
+  destruct (engine_call (empty_path 2 0) streams _ false _ _) as [[[tmp0 str1] c0]|] eqn:E0; [|discriminate].
+  destruct (negb (end_is_R1 tmp0 _)); [intros H; inversion H|].
+  destruct (engine_call (empty_path 2 0) str1 _ false _ _) as [[[tmp1 str2] c1]|] eqn:E1; [|discriminate].
+  destruct (negb (end_is_R1 tmp1 _)); [intros H; inversion H|].
+  apply engine_call_inv in E0. destruct E0 as (s0 & k0 & -> & Ep0 & _ & _ & Hk0 & Hk0l & _ & _ & ->).
+  apply engine_call_inv in E1. destruct E1 as (s1 & k1 & -> & Ep1 & _ & _ & Hk1 & Hk1l & _ & _ & ->).
+  destruct s0 as [|g0 r0]; [cbn in Hk0l; lia|]. destruct s1 as [|g1 r1]; [cbn in Hk1l; lia|].
+  destruct k0 as [|k0]; [lia|]. destruct k1 as [|k1]; [lia|].
+  unfold quantis_energies. rewrite Ef0m2.
+  unfold first_frame at 1 3. rewrite Ep0, Ep1. cbn [firstn nth_error]. rewrite Ef10.
+  destruct (vpot vpot_of f0m2) as [V0r0|] eqn:Ea; [|discriminate].
+  destruct (vpot vpot_of g0) as [V0r1|] eqn:Eb; [|discriminate].
+  destruct (vpot vpot_of f10) as [V1r1|] eqn:Ec; [|discriminate].
+  destruct (vpot vpot_of g1) as [V1r0|] eqn:Ed; [|discriminate].
+  destruct draws as [|u drest]; [discriminate|].
+  unfold quantis_pacc.
+  set (E := expf (quantis_exponent b0 b1 V0r0 V0r1 V1r1 V1r0)).
+  intros H.
+  assert (Hcase : (e_accept_all e0 = true \/ (u <= 1 /\ u <= E)%Q) <-> e_accept_all e0 || Qle_bool u (qmin1 E) = true).
+  { rewrite orb_true_iff, qle_min1. reflexivity. }
+  destruct (e_accept_all e0 || Qle_bool u (qmin1 E)) eqn:EA.
+  - apply quantis_complete_status in H as (Hq & _ & Hacc & extra & ->).
+    eexists u, drest, f10, f0m2, g0, r0, g1, r1, str2, V0r0, V0r1, V1r1, V1r0, _, _, extra.
+    do 4 (split; [reflexivity|]). split; [cbn [app]; reflexivity|]. do 2 (split; [reflexivity|]).
+    split; [exact Ea|]. split; [exact Eb|]. split; [exact Ec|]. split; [exact Ed|].
+    cbn zeta. fold E. split; [|exact Hacc].
+    split; [intros _; apply Hcase; reflexivity|intros _; exact Hq].
+  - inversion H; subst.
+    eexists u, drest, f10, f0m2, g0, r0, g1, r1, str2, V0r0, V0r1, V1r1, V1r0, _, _, [].
+    do 4 (split; [reflexivity|]). split; [reflexivity|]. do 2 (split; [reflexivity|]).
+    split; [exact Ea|]. split; [exact Eb|]. split; [exact Ec|]. split; [exact Ed|].
+    cbn zeta. fold E. split; [|discriminate].
+    split; [intros Hn; exfalso; apply Hn; reflexivity|intros Hc; apply Hcase in Hc; discriminate].
+Qed.
+
+End Quantis.
+
+(* ================================================================== stop rule; sufficient conditions *)
+
+(* the two stop rules (before / after the repair of lead L11) differ in the success flag only *)
+Lemma add_to_path_rules_agree p f l r :
+  match MovesM.add_to_path_g true p f l r, add_to_path p f l r with
+  | Some (p1, _, st1, a1), Some (p2, _, st2, a2) => p1 = p2 /\ st1 = st2 /\ a1 = a2
+  | None, None => True
+  | _, _ => False
+  end.
+Proof.
+  unfold MovesM.add_to_path_g, add_to_path. destruct (append p f) as [p1 add].
+  destruct (rev (pts p1)) as [|lastf t]; [exact I|].
+  destruct (ford lastf <? l); destruct (r <? ford lastf); destruct (plen p1 =? maxlen p1)%nat; destruct add; cbn; auto.
+Qed.
+
+Lemma propagate_loop_rules_agree l r : forall s p n,
+  match MovesM.propagate_loop_g true p s l r n, propagate_loop p s l r n with
+  | PR p1 _ n1, PR p2 _ n2 => p1 = p2 /\ n1 = n2
+  | PRExhausted p1, PRExhausted p2 => p1 = p2
+  | PRError, PRError => True
+  | _, _ => False
+  end.
+Proof.
+  induction s as [|f s IH]; intros p n; cbn [MovesM.propagate_loop_g propagate_loop]; [reflexivity|].
+  pose proof (add_to_path_rules_agree p f l r) as H.
+  destruct (MovesM.add_to_path_g true p f l r) as [[[[p1 s1] st1] a1]|];
+    destruct (add_to_path p f l r) as [[[[p2 s2] st2] a2]|]; try contradiction; [|exact I].
+  destruct H as (-> & -> & ->). destruct st2; [auto|apply IH].
+Qed.
+
+(* hence the swap model is the same function over either rule: it never reads the success flag *)
+Theorem engine_call_rule_irrelevant p streams init rv l r :
+  engine_call p streams init rv l r =
+  match streams with
+  | [] => Err EExhausted
+  | [] :: _ => Err EExhausted
+  | (f :: tl) :: rest =>
+      match propagate p f tl l r with
+      | PR p' _ n => Ok (p', rest, mkCall init rv l r (maxlen p) n)
+      | PRExhausted _ => Err EExhausted
+      | PRError => Err ERaise
+      end
+  end.
+Proof.
+  unfold engine_call. destruct streams as [|[|f tl] rest]; try reflexivity.
+  unfold MovesM.propagate_fixed, MovesM.propagate_g, propagate.
+  pose proof (propagate_loop_rules_agree l r (f :: tl) p 0) as H.
+  destruct (MovesM.propagate_loop_g true p (f :: tl) l r 0); destruct (propagate_loop p (f :: tl) l r 0); try contradiction; try reflexivity.
+  destruct H as [-> ->]. reflexivity.
+Qed.
+
+(* ------------------------------------------------------------------ the converse: when a swap is accepted *)
+
+Lemma path_eta p a m t : pts p = a -> maxlen p = m -> torigin p = t -> p = mkP a m t.
+Proof. destruct p; cbn; congruence. Qed.
+
+Lemma final_weight_not_wf p e : is_wf (e_move e) = false -> final_weight p e = Some 1.
+Proof. unfold final_weight, is_wf. destruct (e_move e); [reflexivity|discriminate|reflexivity]. Qed.
+
+Section Converse.
+Variable dumpf : dlabel -> Z -> Z.
+
+Theorem retis_swap_complete e0 e1 old0 old1 s0 s1 rest draws f10 f11 tl1 pre0 f0m2 f0l k0 k1 :
+  pts (sp_path old1) = f10 :: f11 :: tl1 ->
+  pts (sp_path old0) = pre0 ++ [f0m2; f0l] ->
+  end_point (sp_path old0) (e_i0 e0) (e_i2 e0) = Some SR ->
+  lm1_early e0 (sp_path old0) = false ->
+  stops_at (e_i0 e0) (e_i2 e0) s0 k0 -> (2 <= k0)%nat -> (k0 + 1 < e_maxlen e0)%nat -> (k0 <= e_maxlen e1 - 1)%nat ->
+  stops_at (e_i0 e1) (e_i2 e1) s1 k1 -> (2 <= k1)%nat -> (k1 + 1 < e_maxlen e1)%nat ->
+  (e_scL e0 = false ->
+   has_L_start_end (mkP (rev (firstn k0 s0) ++ [dump dumpf DSecond f11]) (e_maxlen e0) 0) e0 = false) ->
+  is_wf (e_move e0) || is_wf (e_move e1) = false ->
+  exists path1,
+    map erase (pts path1) = erase (dump dumpf DSecondLast f0m2) :: map erase (firstn k1 s1) /\
+    maxlen path1 = e_maxlen e1 /\ torigin path1 = 0 /\
+    retis_swap_zero dumpf e0 e1 old0 old1 (s0 :: s1 :: rest) draws =
+    Out true (mkSP (mkP (rev (firstn k0 s0) ++ [dump dumpf DSecond f11]) (e_maxlen e0) 0) ACC 1)
+             (mkSP path1 ACC 1) ACC
+        [mkCall (copy_frame 0 f10) true (e_i0 e0) (e_i2 e0) (e_maxlen e1 - 1) k0;
+         mkCall (copy_frame 0 f0l) false (e_i0 e1) (e_i2 e1) (e_maxlen e1 - 1) k1] 0.
+Proof.
+  intros Ho1 Ho0 Hep Hearly Hst0 Hk0 Hk0m Hk0m1 Hst1 Hk1 Hk1m HL Hwf.
+  apply orb_false_iff in Hwf as [Hwf0 Hwf1].
+  assert (Hl0 : (k0 <= length s0)%nat).
+  { destruct Hst0 as (_ & _ & lf & Hn & _). assert (k0 - 1 < length s0)%nat by (apply nth_error_Some; congruence). lia. }
+  assert (Hl1 : (k1 <= length s1)%nat).
+  { destruct Hst1 as (_ & _ & lf & Hn & _). assert (k1 - 1 < length s1)%nat by (apply nth_error_Some; congruence). lia. }
+  (* path0 *)
+  assert (E0 : retis_path0 dumpf e0 e1 true (sp_path old1) (s0 :: s1 :: rest) =
+               Ok (mkP (rev (firstn k0 s0) ++ [dump dumpf DSecond f11]) (e_maxlen e0) 0, ACC, s1 :: rest,
+                   [mkCall (copy_frame 0 f10) true (e_i0 e0) (e_i2 e0) (e_maxlen e1 - 1) k0])).
+  { unfold retis_path0, first_frame, second_frame. rewrite Ho1. cbn [nth_error].
+    rewrite (engine_call_run _ _ _ _ _ _ _ _ _ Hst0 Hk0m1). cbn [pts].
+    set (P := fst (append_all (empty_path (e_maxlen e0) 0) (rev (firstn k0 s0)))).
+    assert (HP : P = mkP (rev (firstn k0 s0)) (e_maxlen e0) 0).
+    { pose proof (append_all_spec (empty_path (e_maxlen e0) 0) (rev (firstn k0 s0))) as (A & B & C & _).
+      apply path_eta; [|exact B|exact C]. fold P in A. rewrite A. cbn [empty_path pts maxlen plen length app].
+      rewrite Nat.sub_0_r. apply firstn_all2. rewrite firstn_rev_length by exact Hl0. lia. }
+    rewrite HP.
+    assert (Happ : append (mkP (rev (firstn k0 s0)) (e_maxlen e0) 0) (dump dumpf DSecond f11) =
+                   (mkP (rev (firstn k0 s0) ++ [dump dumpf DSecond f11]) (e_maxlen e0) 0, true)).
+    { unfold append, plen. cbn [pts maxlen torigin]. rewrite firstn_rev_length by exact Hl0.
+      destruct (Nat.ltb_spec k0 (e_maxlen e0)) as [_|]; [reflexivity|lia]. }
+    rewrite Happ. cbn [fst].
+    set (P0 := mkP (rev (firstn k0 s0) ++ [dump dumpf DSecond f11]) (e_maxlen e0) 0) in *.
+    assert (Hlen : plen P0 = (k0 + 1)%nat) by (unfold plen, P0; cbn [pts]; rewrite app_length, firstn_rev_length by exact Hl0; reflexivity).
+    rewrite Hlen.
+    destruct (Nat.eqb_spec (k0 + 1) (e_maxlen e0)); [lia|].
+    destruct (Nat.ltb_spec (k0 + 1) 3); [lia|].
+    destruct (e_scL e0) eqn:EscL; cbn [negb andb]; [reflexivity|]. rewrite (HL eq_refl). reflexivity. }
+  (* path1 *)
+  set (Q := fst (append (empty_path (e_maxlen e1) 0) (dump dumpf DSecondLast f0m2))).
+  set (tmp1 := mkP (firstn k1 s1) (e_maxlen e1 - 1) 0).
+  set (path1 := iadd 0 Q tmp1).
+  assert (HQ : pts Q = [dump dumpf DSecondLast f0m2] /\ maxlen Q = e_maxlen e1 /\ torigin Q = 0).
+  { unfold Q, append. cbn [empty_path plen pts length maxlen]. destruct (Nat.ltb_spec 0 (e_maxlen e1)); [|lia]. cbn. auto. }
+  destruct HQ as (HQ1 & HQ2 & HQ3).
+  assert (HP1 : map erase (pts path1) = erase (dump dumpf DSecondLast f0m2) :: map erase (firstn k1 s1)).
+  { unfold path1. rewrite iadd_pts, HQ1, HQ2. unfold plen. rewrite HQ1. cbn [map app length pts tmp1].
+    rewrite firstn_all2; [reflexivity|]. rewrite map_length, firstn_length. lia. }
+  assert (HP1m : maxlen path1 = e_maxlen e1 /\ torigin path1 = 0).
+  { unfold path1, iadd. pose proof (append_all_spec Q (copy_frames 0 (pts tmp1))) as (_ & B & C & _). rewrite B, C. auto. }
+  assert (Hlen1 : plen path1 = S k1).
+  { rewrite plen_map_erase, HP1. cbn [length]. rewrite map_length, firstn_length. lia. }
+  assert (E1 : retis_path1 dumpf e0 e1 true (sp_path old0) (s1 :: rest) =
+               Ok (path1, ACC, rest, [mkCall (copy_frame 0 f0l) false (e_i0 e1) (e_i2 e1) (e_maxlen e1 - 1) k1])).
+  { unfold retis_path1, last_frame, last2_frame. rewrite Ho0, rev_app_distr. cbn [rev app nth_error].
+    rewrite (engine_call_run _ _ _ _ _ _ _ _ _ Hst1) by lia.
+    fold tmp1. fold Q. fold path1. rewrite Hlen1.
+    destruct (Nat.leb_spec (e_maxlen e1) (S k1)); [lia|]. destruct (Nat.ltb_spec (S k1) 3); [lia|]. reflexivity. }
+  exists path1. split; [exact HP1|]. split; [apply HP1m|]. split; [apply HP1m|].
+  unfold retis_swap_zero. rewrite Hep, Hearly. cbn [is_R]. rewrite E0, E1. cbn [is_acc andb app].
+  rewrite Hwf0, Hwf1. cbn [orb andb negb].
+  rewrite (final_weight_not_wf _ _ Hwf0), (final_weight_not_wf _ _ Hwf1). reflexivity.
+Qed.
+
+End Converse.
+
+(* ================================================================== deterministic reversible dynamics *)
+
+(* ------------------------------------------------------------------ first-crossing lists *)
+Definition crossedz (l r o : Z) : bool := (o <? l) || (r <? o).
+
+Lemma crossedb_z l r f : crossedb l r f = crossedz l r (ford f).
+Proof. reflexivity. Qed.
+
+(* a list of order values in which exactly the last one is beyond an interface *)
+Definition fcross (l r : Z) (os : list Z) : Prop :=
+  exists pre c, os = pre ++ [c] /\ (forall o, In o pre -> crossedz l r o = false) /\ crossedz l r c = true.
+
+Lemma fcross_prefix_eq l r a b t : fcross l r a -> fcross l r b -> b = a ++ t -> a = b.
+Proof.
+  intros (pa & ca & -> & Hpa & Hca) (pb & cb & -> & Hpb & Hcb) E.
+  destruct t as [|x t] using rev_ind; [rewrite app_nil_r in E; symmetry; exact E|]. clear IHt.
+  exfalso. rewrite app_assoc in E. apply app_inj_tail in E as [E _]. 
+  assert (In ca pb) by (rewrite E; apply in_or_app; left; apply in_or_app; right; left; reflexivity).
+  rewrite (Hpb _ H) in Hca. discriminate.
+Qed.
+
+Lemma fcross_comparable_eq l r a b :
+  fcross l r a -> fcross l r b -> ((exists t, b = a ++ t) \/ (exists t, a = b ++ t)) -> a = b.
+Proof.
+  intros Ha Hb [[t E]|[t E]]; [eapply fcross_prefix_eq; eassumption|symmetry; eapply fcross_prefix_eq; eassumption].
+Qed.
+
+Lemma stops_at_fcross l r s k : stops_at l r s k -> fcross l r (map ford (firstn k s)).
+Proof.
+  intros Hst. pose proof Hst as (_ & Hpre & _).
+  destruct (stops_at_split _ _ _ _ Hst) as (lastf & _ & Hc & Hf & _).
+  exists (map ford (firstn (k - 1) s)), (ford lastf). rewrite Hf, map_app. split; [reflexivity|].
+  split; [|exact Hc]. intros o Ho. apply in_map_iff in Ho as (f & <- & Hf'). apply (Hpre _ Hf').
+Qed.
+
+Lemma app_eq_len {A} (a b c d : list A) : a ++ b = c ++ d -> length a = length c -> a = c /\ b = d.
+Proof.
+  revert c; induction a as [|x a IH]; intros [|y c] E L; cbn in *; try discriminate; [auto|].
+  injection E as -> E. destruct (IH c E) as [-> ->]; [lia|auto].
+Qed.
+
+Section Rev.
+(* an abstract deterministic time-reversible MD engine (see SwapM.Reversible) *)
+Variable X : Type.
+Variable T R : X -> X.
+Variable ord : X -> Z.
+Variable enc : X -> Z.
+Variable dec : Z -> X.
+Hypothesis HRR : forall x, R (R x) = x.
+Hypothesis HRT : forall x, R (T (R (T x))) = x.
+Hypothesis Hord : forall x, ord (R x) = ord x.
+Hypothesis Hdec : forall x, dec (enc x) = x.
+
+Notation traj := (traj X T).
+Notation phys := (phys X R dec).
+Notation det_stream := (det_stream X T R ord enc dec).
+Notation det_retis := (det_retis X T R ord enc dec).
+
+Definition Tinv (x : X) : X := R (T (R x)).
+
+Lemma Tinv_T x : Tinv (T x) = x.
+Proof. apply HRT. Qed.
+
+Lemma T_R x : T (R x) = R (Tinv x).
+Proof. unfold Tinv. rewrite HRR. reflexivity. Qed.
+
+Fixpoint itn (f : X -> X) (n : nat) (x : X) : X := match n with O => x | S k => itn f k (f x) end.
+
+Lemma itn_S f n : forall x, itn f (S n) x = f (itn f n x).
+Proof. induction n as [|n IH]; intros x; [reflexivity|]. cbn [itn] in *. rewrite IH. reflexivity. Qed.
+
+Lemma itn_inv n : forall y, itn Tinv n (itn T n y) = y.
+Proof.
+  induction n as [|n IH]; intros y; [reflexivity|].
+  rewrite (itn_S T). cbn [itn]. rewrite Tinv_T. apply IH.
+Qed.
+
+(* the backward sequence x, T^-1 x, T^-2 x, ... *)
+Fixpoint itraj (n : nat) (x : X) : list X := match n with O => [] | S k => x :: itraj k (Tinv x) end.
+
+Lemma traj_app a : forall b x, traj (a + b) x = traj a x ++ traj b (itn T a x).
+Proof. induction a as [|a IH]; intros b x; [reflexivity|]. cbn [Nat.add SwapM.traj app itn]. rewrite IH. reflexivity. Qed.
+
+Lemma itraj_app a : forall b x, itraj (a + b) x = itraj a x ++ itraj b (itn Tinv a x).
+Proof. induction a as [|a IH]; intros b x; [reflexivity|]. cbn [Nat.add itraj app itn]. rewrite IH. reflexivity. Qed.
+
+Lemma traj_length n : forall x, length (traj n x) = n.
+Proof. induction n; intros; cbn; auto. Qed.
+Lemma itraj_length n : forall x, length (itraj n x) = n.
+Proof. induction n; intros; cbn; auto. Qed.
+
+Lemma itraj_rev j : forall y, itraj (S j) (itn T j y) = rev (traj (S j) y).
+Proof.
+  induction j as [|j IH]; intros y; [reflexivity|].
+  change (traj (S (S j)) y) with (y :: traj (S j) (T y)). cbn [rev]. rewrite <- IH.
+  replace (S (S j)) with (S j + 1)%nat by lia. rewrite itraj_app. cbn [itn]. f_equal.
+  cbn [itraj]. f_equal. change (itn Tinv j (Tinv (itn T j (T y)))) with (itn Tinv (S j) (itn T j (T y))).
+  change (itn T j (T y)) with (itn T (S j) y). apply itn_inv.
+Qed.
+
+Lemma traj_R n : forall x, traj n (R x) = map R (itraj n x).
+Proof. induction n as [|n IH]; intros x; [reflexivity|]. cbn [SwapM.traj itraj map]. rewrite T_R, IH. reflexivity. Qed.
+
+Lemma firstn_traj k : forall n x, (k <= n)%nat -> firstn k (traj n x) = traj k x.
+Proof.
+  induction k as [|k IH]; intros [|n] x H; try reflexivity; [lia|]. cbn [SwapM.traj firstn]. rewrite IH by lia. reflexivity.
+Qed.
+Lemma firstn_itraj k : forall n x, (k <= n)%nat -> firstn k (itraj n x) = itraj k x.
+Proof.
+  induction k as [|k IH]; intros [|n] x H; try reflexivity; [lia|]. cbn [itraj firstn]. rewrite IH by lia. reflexivity.
+Qed.
+
+Lemma traj_comparable k m x : (exists t, traj m x = traj k x ++ t) \/ (exists t, traj k x = traj m x ++ t).
+Proof.
+  destruct (Nat.le_ge_cases k m) as [H|H]; [left|right].
+  - replace m with (k + (m - k))%nat by lia. rewrite traj_app. eauto.
+  - replace k with (m + (k - m))%nat by lia. rewrite traj_app. eauto.
+Qed.
+Lemma itraj_comparable k m x : (exists t, itraj m x = itraj k x ++ t) \/ (exists t, itraj k x = itraj m x ++ t).
+Proof.
+  destruct (Nat.le_ge_cases k m) as [H|H]; [left|right].
+  - replace m with (k + (m - k))%nat by lia. rewrite itraj_app. eauto.
+  - replace k with (m + (k - m))%nat by lia. rewrite itraj_app. eauto.
+Qed.
+
+(* ---- frames *)
+Definition physE (e : Z * Z * bool) : X := let '(o, t, r) := e in if r then R (dec t) else dec t.
+Lemma phys_erase f : phys f = physE (erase f).
+Proof. reflexivity. Qed.
+
+Lemma phys_frame_of rv s : phys (frame_of X ord enc rv s) = if rv then R s else s.
+Proof. unfold SwapM.phys, frame_of. cbn. rewrite Hdec. reflexivity. Qed.
+
+Lemma start_state_true f : start_state X R dec f true = R (phys f).
+Proof. unfold start_state, SwapM.phys. cbn. destruct (frev f); cbn; [rewrite HRR|]; reflexivity. Qed.
+Lemma start_state_false f : start_state X R dec f false = phys f.
+Proof. unfold start_state, SwapM.phys. cbn. destruct (frev f); reflexivity. Qed.
+
+Lemma phys_stream_back n f : map phys (det_stream n f true) = itraj n (phys f).
+Proof.
+  unfold SwapM.det_stream. rewrite map_map, start_state_true, traj_R, map_map.
+  rewrite <- (map_id (itraj n (phys f))) at 2. apply map_ext. intros s. rewrite phys_frame_of. apply HRR.
+Qed.
+Lemma phys_stream_forw n f : map phys (det_stream n f false) = traj n (phys f).
+Proof.
+  unfold SwapM.det_stream. rewrite map_map, start_state_false.
+  rewrite <- (map_id (traj n (phys f))) at 2. apply map_ext. intros s. apply phys_frame_of.
+Qed.
+Lemma ford_stream n f rv : map ford (det_stream n f rv) = map ord (map phys (det_stream n f rv)).
+Proof.
+  unfold SwapM.det_stream. rewrite !map_map. apply map_ext. intros s. rewrite phys_frame_of. cbn.
+  destruct rv; [rewrite Hord|]; reflexivity.
+Qed.
+Lemma stream_length n f rv : length (det_stream n f rv) = n.
+Proof. unfold SwapM.det_stream. rewrite map_length. apply traj_length. Qed.
+
+
+(* ---- the double swap *)
+Definition idump : dlabel -> Z -> Z := fun _ t => t.
+
+(* consecutive states of the dynamics starting in x0, the stored order parameters being those of the states *)
+Definition phys_path (x0 : X) (p : path) : Prop :=
+  map phys (pts p) = traj (plen p) x0 /\ orders p = map ord (traj (plen p) x0).
+
+(* a [0-] path as the stop rule leaves it: first frame beyond an interface, the others (but the last) not *)
+Definition minus_shape (e : ens) (p : path) : Prop :=
+  exists fa mid fl, pts p = fa :: mid ++ [fl] /\ crossedb (e_i0 e) (e_i2 e) fa = true /\
+                    forall f, In f mid -> crossedb (e_i0 e) (e_i2 e) f = false.
+(* a [0+] path: last frame beyond an interface, the others (but the first) not *)
+Definition plus_shape (e : ens) (p : path) : Prop :=
+  exists fb mid fz, pts p = fb :: mid ++ [fz] /\ crossedb (e_i0 e) (e_i2 e) fz = true /\
+                    forall f, In f mid -> crossedb (e_i0 e) (e_i2 e) f = false.
+
+Lemma det_retis_shape n e0 e1 old0 old1 new0 new1 st calls nd :
+  det_retis n e0 e1 old0 old1 = Out true new0 new1 st calls nd ->
+  exists f10 f11 tl1 pre0 f0m2 f0l k0 k1,
+    pts (sp_path old1) = f10 :: f11 :: tl1 /\ pts (sp_path old0) = pre0 ++ [f0m2; f0l] /\
+    pts (sp_path new0) = rev (firstn k0 (det_stream n (copy_frame 0 f10) true)) ++ [dump idump DSecond f11] /\
+    map erase (pts (sp_path new1)) =
+      erase (dump idump DSecondLast f0m2) :: map erase (firstn k1 (det_stream n (copy_frame 0 f0l) false)) /\
+    (2 <= k0 <= n)%nat /\ (k0 + 1 < e_maxlen e0)%nat /\
+    ((k0 < e_maxlen e1 - 1)%nat -> stops_at (e_i0 e0) (e_i2 e0) (det_stream n (copy_frame 0 f10) true) k0) /\
+    (2 <= k1 <= n)%nat /\ stops_at (e_i0 e1) (e_i2 e1) (det_stream n (copy_frame 0 f0l) false) k1.
+Proof.
+  unfold SwapM.det_retis.
+  destruct (first_frame (sp_path old1)) as [f|] eqn:Ef; [|discriminate].
+  destruct (last_frame (sp_path old0)) as [g|] eqn:Eg; [|discriminate].
+  intros H. apply retis_acc_struct in H as (_ & _ & _ & Hsh).
+  destruct Hsh as (f10 & f11 & tl1 & pre0 & f0m2 & f0l & s0 & s1 & rest & k0 & k1 & Ho1 & Ho0 & Hs & Hp0 & _ & _ & Hp1 & _ & _ &
+          Hk0 & Hk0m & _ & _ & Hstop0 & Hk1 & _ & Hstop1 & _).
+  unfold first_frame in Ef. rewrite Ho1 in Ef. injection Ef as <-.
+  unfold last_frame in Eg. rewrite Ho0, rev_app_distr in Eg. injection Eg as <-.
+  injection Hs as <- <- _.
+  rewrite stream_length in Hk0, Hk1.
+  exists f10, f11, tl1, pre0, f0m2, f0l, k0, k1.
+  split; [exact Ho1|]. split; [exact Ho0|]. split; [exact Hp0|]. split; [exact Hp1|]. split; [lia|].
+  split; [exact Hk0m|]. split; [exact Hstop0|]. split; [lia|exact Hstop1].
+Qed.
+
+Lemma phys_dump lab f : phys (dump idump lab f) = phys f.
+Proof. reflexivity. Qed.
+
+Lemma map_phys_erase l : map phys l = map physE (map erase l).
+Proof. rewrite map_map. reflexivity. Qed.
+
+Lemma orders_back_prefix n f k : (k <= n)%nat ->
+  map ford (firstn k (det_stream n f true)) = map ord (itraj k (phys f)).
+Proof. intros H. rewrite <- firstn_map, ford_stream, phys_stream_back, firstn_map, firstn_itraj by exact H. reflexivity. Qed.
+Lemma orders_forw_prefix n f k : (k <= n)%nat ->
+  map ford (firstn k (det_stream n f false)) = map ord (traj k (phys f)).
+Proof. intros H. rewrite <- firstn_map, ford_stream, phys_stream_forw, firstn_map, firstn_traj by exact H. reflexivity. Qed.
+
+Lemma comparable_map {A B} (g : A -> B) (a b : list A) :
+  ((exists t, b = a ++ t) \/ (exists t, a = b ++ t)) ->
+  ((exists t, map g b = map g a ++ t) \/ (exists t, map g a = map g b ++ t)).
+Proof. intros [[t ->]|[t ->]]; [left|right]; rewrite map_app; eauto. Qed.
+
+Theorem swap_twice_id n e0 e1 old0 old1 a0 b0 new0 new1 st calls nd new0' new1' st' calls' nd' :
+  phys_path a0 (sp_path old0) -> phys_path b0 (sp_path old1) ->
+  minus_shape e0 (sp_path old0) -> plus_shape e1 (sp_path old1) ->
+  (e_maxlen e0 <= e_maxlen e1)%nat ->
+  det_retis n e0 e1 old0 old1 = Out true new0 new1 st calls nd ->
+  det_retis n e0 e1 new0 new1 = Out true new0' new1' st' calls' nd' ->
+  orders (sp_path new0') = orders (sp_path old0) /\ orders (sp_path new1') = orders (sp_path old1).
+Proof.
+  intros [Hpa Hoa] [Hpb Hob] (fa & mid0 & fl & Hsa & Hca & Hma) (fb & mid1 & fz & Hsb & Hcz & Hmb) Hml D1 D2.
+  apply det_retis_shape in D1.
+  destruct D1 as (f10 & f11 & tl1 & pre0 & f0m2 & f0l & k0 & k1 & Ho1 & Ho0 & Hn0 & Hn1 & Hk0 & _ & _ & Hk1 & _).
+  apply det_retis_shape in D2.
+  destruct D2 as (F10 & F11 & TL1 & PRE0 & F0m2 & F0l & K0 & K1 & HO1 & HO0 & HN0 & HN1 & HK0 & HK0m & HST0 & HK1 & HST1).
+  (* the old [0-] path in terms of the dynamics *)
+  unfold plen in Hpa, Hoa, Hpb, Hob. unfold orders in Hoa, Hob.
+  rewrite Ho0 in Hpa, Hoa. rewrite app_length in Hpa, Hoa. cbn [length] in Hpa, Hoa.
+  rewrite traj_app in Hpa, Hoa. cbn [SwapM.traj] in Hpa, Hoa. rewrite !map_app in Hpa. rewrite !map_app in Hoa. cbn [map] in Hpa, Hoa.
+  set (xx := itn T (length pre0) a0) in *.
+  apply app_eq_len in Hpa as [Hpa1 Hpa2]; [|rewrite map_length, traj_length; reflexivity].
+  apply app_eq_len in Hoa as [Hoa1 Hoa2]; [|rewrite !map_length, traj_length; reflexivity].
+  injection Hpa2 as Hx Hx'. injection Hoa2 as Hfx Hfx'.
+  (* the old [0+] path *)
+  rewrite Ho1 in Hpb, Hob. cbn [length SwapM.traj map] in Hpb, Hob.
+  injection Hpb as Hb0 Hb1 Hbt. injection Hob as Hfb0 Hfb1 Hfbt.
+  (* junction frames of the intermediate paths *)
+  assert (HF10 : phys F10 = xx /\ ford F11 = ford f0l).
+  { pose proof (f_equal (map physE) Hn1) as E1. rewrite <- map_phys_erase, HO1 in E1. cbn [map] in E1.
+    injection E1 as E1 _. change (phys F10 = phys f0m2) in E1. split; [congruence|].
+    pose proof (f_equal (map (fun e : Z * Z * bool => fst (fst e))) Hn1) as E2.
+    rewrite HO1 in E2. cbn [map] in E2. rewrite <- !map_ford_erase in E2. rewrite orders_forw_prefix in E2 by lia.
+    destruct k1 as [|k1]; [lia|]. cbn [SwapM.traj map] in E2. injection E2 as _ E2 _.
+    change (phys (copy_frame 0 f0l)) with (phys f0l) in E2. rewrite E2, Hfx', Hx'. reflexivity. }
+  destruct HF10 as [HF10 HF11].
+  assert (HF0 : F0l = dump idump DSecond f11 /\ ford F0m2 = ford f10).
+  { rewrite HO0 in Hn0. destruct k0 as [|k0]; [lia|].
+    pose proof (orders_back_prefix n (copy_frame 0 f10) (S k0) ltac:(lia)) as E.
+    destruct (det_stream n (copy_frame 0 f10) true) as [|g0 r0]; [cbn in E; discriminate|].
+    cbn [firstn rev itraj map] in Hn0, E. injection E as E _.
+    change (PRE0 ++ [F0m2; F0l]) with (PRE0 ++ [F0m2] ++ [F0l]) in Hn0. rewrite app_assoc in Hn0.
+    apply app_inj_tail in Hn0 as [Hn0 ->]. apply app_inj_tail in Hn0 as [_ ->]. split; [reflexivity|].
+    rewrite E. change (phys (copy_frame 0 f10)) with (phys f10). rewrite Hfb0, Hb0. reflexivity. }
+  destruct HF0 as [-> HF0m2].
+  split.
+  - (* [0-] *)
+    unfold orders. rewrite HN0, Ho0, map_app, map_rev. cbn [map dump ford].
+    rewrite orders_back_prefix by lia. change (phys (copy_frame 0 F10)) with (phys F10). rewrite HF10, HF11.
+    assert (Hst : stops_at (e_i0 e0) (e_i2 e0) (det_stream n (copy_frame 0 F10) true) K0) by (apply HST0; lia).
+    apply stops_at_fcross in Hst. rewrite orders_back_prefix in Hst by lia.
+    change (phys (copy_frame 0 F10)) with (phys F10) in Hst. rewrite HF10 in Hst.
+    assert (Hsplit : pre0 ++ [f0m2] = fa :: mid0 /\ f0l = fl).
+    { rewrite Ho0 in Hsa. change (pre0 ++ [f0m2; f0l]) with (pre0 ++ [f0m2] ++ [f0l]) in Hsa.
+      rewrite app_assoc in Hsa. change (fa :: mid0 ++ [fl]) with ((fa :: mid0) ++ [fl]) in Hsa.
+      apply app_inj_tail in Hsa. exact Hsa. }
+    destruct Hsplit as [Hsplit _].
+    assert (Hrev : map ord (itraj (S (length pre0)) xx) = rev (map ford (pre0 ++ [f0m2]))).
+    { unfold xx. rewrite itraj_rev, map_rev. f_equal.
+      replace (S (length pre0)) with (length pre0 + 1)%nat by lia. rewrite traj_app. cbn [SwapM.traj]. fold xx.
+      rewrite !map_app. cbn [map]. rewrite <- Hoa1, <- Hfx. reflexivity. }
+    assert (Hold : fcross (e_i0 e0) (e_i2 e0) (map ord (itraj (S (length pre0)) xx))).
+    { rewrite Hrev, Hsplit. cbn [map rev]. exists (rev (map ford mid0)), (ford fa).
+      split; [reflexivity|]. split; [|exact Hca].
+      intros o Ho. apply in_rev, in_map_iff in Ho as (f & <- & Hf). apply (Hma _ Hf). }
+    pose proof (fcross_comparable_eq _ _ _ _ Hst Hold
+                  (comparable_map ord _ _ (itraj_comparable K0 (S (length pre0)) xx))) as Heq.
+    rewrite Heq, Hrev, rev_involutive, !map_app. cbn [map].
+    rewrite <- app_assoc. reflexivity.
+  - (* [0+] *)
+    unfold orders. rewrite map_ford_erase, HN1, Ho1. cbn [map erase dump ford fst].
+    rewrite <- map_ford_erase, orders_forw_prefix by lia.
+    change (phys (copy_frame 0 (dump idump DSecond f11))) with (phys f11).
+    rewrite <- Hb1 in *. rewrite HF0m2. f_equal.
+    apply stops_at_fcross in HST1. rewrite orders_forw_prefix in HST1 by lia.
+    change (phys (copy_frame 0 (dump idump DSecond f11))) with (phys f11) in HST1.
+    assert (Hsplit : f11 :: tl1 = mid1 ++ [fz]).
+    { rewrite Ho1 in Hsb. injection Hsb as _ Hsb. exact Hsb. }
+    assert (Hold : fcross (e_i0 e1) (e_i2 e1) (map ord (traj (S (length tl1)) (phys f11)))).
+    { cbn [SwapM.traj map]. rewrite <- Hfb1, <- Hfbt. change (ford f11 :: map ford tl1) with (map ford (f11 :: tl1)).
+      rewrite Hsplit, map_app. exists (map ford mid1), (ford fz). split; [reflexivity|]. split; [|exact Hcz].
+      intros o Ho. apply in_map_iff in Ho as (f & <- & Hf). apply (Hmb _ Hf). }
+    pose proof (fcross_comparable_eq _ _ _ _ HST1 Hold
+                  (comparable_map ord _ _ (traj_comparable K1 (S (length tl1)) (phys f11)))) as Heq.
+    rewrite Heq. cbn [SwapM.traj map]. rewrite <- Hfb1, <- Hfbt. reflexivity.
+Qed.
+
+(* ---- the swap back is accepted *)
+
+Lemma fcross_stops_at l r s k :
+  (k <= length s)%nat -> fcross l r (map ford (firstn k s)) -> stops_at l r s k.
+Proof.
+  intros Hk (pre & c & E & Hpre & Hc).
+  assert (Hlen : length (firstn k s) = k) by (rewrite firstn_length; lia).
+  assert (Hk1 : (1 <= k)%nat).
+  { apply (f_equal (@length Z)) in E. rewrite map_length, Hlen, app_length in E. cbn in E. lia. }
+  pose proof (firstn_skipn (k - 1) (firstn k s)) as Hsp. rewrite firstn_firstn in Hsp.
+  replace (Nat.min (k - 1) k) with (k - 1)%nat in Hsp by lia.
+  assert (Hlsk : length (skipn (k - 1) (firstn k s)) = 1%nat) by (rewrite skipn_length, Hlen; lia).
+  destruct (skipn (k - 1) (firstn k s)) as [|lastf [|]] eqn:Esk; try discriminate. clear Hlsk.
+  rewrite <- Hsp, map_app in E. cbn [map] in E. apply app_inj_tail in E as [E1 E2].
+  split; [exact Hk1|]. split.
+  - intros f Hf. rewrite crossedb_z. apply Hpre. rewrite <- E1. apply in_map. exact Hf.
+  - exists lastf. split; [|rewrite crossedb_z, E2; exact Hc].
+    assert (Hn : nth_error (firstn k s) (k - 1) = Some lastf).
+    { rewrite <- Hsp. rewrite nth_error_app2 by (rewrite firstn_length; lia).
+      rewrite firstn_length. replace (k - 1 - Nat.min (k - 1) (length s))%nat with 0%nat by lia. reflexivity. }
+    rewrite <- (firstn_skipn k s), nth_error_app1 by lia. exact Hn.
+Qed.
+
+(* valid old paths: shape of the stop rule plus the sides the ensembles prescribe *)
+Definition minus_valid (e : ens) (p : path) : Prop :=
+  exists fa mid fl, pts p = fa :: mid ++ [fl] /\ mid <> [] /\ crossedb (e_i0 e) (e_i2 e) fa = true /\
+    (e_scL e = false -> e_i2 e < ford fa) /\
+    (forall f, In f mid -> crossedb (e_i0 e) (e_i2 e) f = false) /\ e_i2 e <= ford fl.
+Definition plus_valid (e : ens) (p : path) : Prop :=
+  exists fb mid fz, pts p = fb :: mid ++ [fz] /\ mid <> [] /\ crossedb (e_i0 e) (e_i2 e) fz = true /\
+    (forall f, In f mid -> crossedb (e_i0 e) (e_i2 e) f = false).
+
+Lemma minus_valid_shape e p : minus_valid e p -> minus_shape e p.
+Proof. intros (fa & mid & fl & H1 & _ & H2 & _ & H3 & _). exists fa, mid, fl. auto. Qed.
+Lemma plus_valid_shape e p : plus_valid e p -> plus_shape e p.
+Proof. intros (fb & mid & fz & H1 & _ & H2 & H3). exists fb, mid, fz. auto. Qed.
+
+Lemma has_L_false p e a mid b :
+  e_i0 e <= e_i1 e <= e_i2 e -> orders p = a :: mid ++ [b] -> e_i0 e < a -> e_i0 e < b ->
+  has_L_start_end p e = false.
+Proof.
+  intros Hio Ho Ha Hb. unfold has_L_start_end, check_interfaces, ordermin, ordermax, intf_of. rewrite Ho.
+  destruct (argmin_from a 0 1 (mid ++ [b])) as [omin imin]. destruct (argmax_from a 0 1 (mid ++ [b])) as [omax imax].
+  rewrite zmin3, zmax3 by exact Hio. cbn [ci_start ci_end].
+  unfold start_point, end_point. rewrite Ho. destruct (Z.ltb_spec (e_i2 e) (e_i0 e)); [lia|].
+  change (a :: mid ++ [b]) with ((a :: mid) ++ [b]). rewrite rev_app_distr. cbn [rev app].
+  unfold classify. destruct (Z.leb_spec a (e_i0 e)); [lia|]. destruct (Z.leb_spec b (e_i0 e)); [lia|].
+  destruct (e_i2 e <=? a); destruct (e_i2 e <=? b); reflexivity.
+Qed.
+
+Theorem swap_back_accepted n e0 e1 old0 old1 a0 b0 new0 new1 st calls nd :
+  phys_path a0 (sp_path old0) -> phys_path b0 (sp_path old1) ->
+  minus_valid e0 (sp_path old0) -> plus_valid e1 (sp_path old1) ->
+  (e_maxlen e0 <= e_maxlen e1)%nat ->
+  (plen (sp_path old0) < e_maxlen e0)%nat -> (plen (sp_path old1) < e_maxlen e1)%nat ->
+  (plen (sp_path old0) - 1 <= n)%nat -> (plen (sp_path old1) - 1 <= n)%nat ->
+  e_i0 e0 <= e_i1 e0 <= e_i2 e0 -> e_i0 e0 < e_i2 e0 -> e_i2 e0 = e_i0 e1 ->
+  is_wf (e_move e0) || is_wf (e_move e1) = false ->
+  det_retis n e0 e1 old0 old1 = Out true new0 new1 st calls nd ->
+  exists new0' new1' calls', det_retis n e0 e1 new0 new1 = Out true new0' new1' ACC calls' 0.
+Proof.
+  intros [Hpa Hoa] [Hpb Hob] (fa & mid0 & fl & Hsa & Hmid0 & Hca & HscL & Hma & Hfl)
+         (fb & mid1 & fz & Hsb & Hmid1 & Hcz & Hmb) Hml Hlen0 Hlen1 Hn0' Hn1' Hio Hlt Hlam Hwf D1.
+  apply det_retis_shape in D1.
+  destruct D1 as (f10 & f11 & tl1 & pre0 & f0m2 & f0l & k0 & k1 & Ho1 & Ho0 & Hn0 & Hn1 & Hk0 & _ & _ & Hk1 & _).
+  (* the old [0-] path in terms of the dynamics *)
+  unfold plen in *. unfold orders in Hoa, Hob.
+  rewrite Ho0 in Hpa, Hoa, Hlen0, Hn0'. rewrite app_length in Hpa, Hoa, Hlen0, Hn0'. cbn [length] in Hpa, Hoa, Hlen0, Hn0'.
+  rewrite traj_app in Hpa, Hoa. cbn [SwapM.traj] in Hpa, Hoa. rewrite !map_app in Hpa. rewrite !map_app in Hoa. cbn [map] in Hpa, Hoa.
+  set (xx := itn T (length pre0) a0) in *.
+  apply app_eq_len in Hpa as [Hpa1 Hpa2]; [|rewrite map_length, traj_length; reflexivity].
+  apply app_eq_len in Hoa as [Hoa1 Hoa2]; [|rewrite !map_length, traj_length; reflexivity].
+  injection Hpa2 as Hx Hx'. injection Hoa2 as Hfx Hfx'.
+  rewrite Ho1 in Hpb, Hob, Hlen1, Hn1'. cbn [length SwapM.traj map] in Hpb, Hob, Hlen1, Hn1'.
+  injection Hpb as Hb0 Hb1 Hbt. injection Hob as Hfb0 Hfb1 Hfbt.
+  assert (Hsplit0 : pre0 ++ [f0m2] = fa :: mid0 /\ f0l = fl).
+  { rewrite Ho0 in Hsa. change (pre0 ++ [f0m2; f0l]) with (pre0 ++ [f0m2] ++ [f0l]) in Hsa.
+    rewrite app_assoc in Hsa. change (fa :: mid0 ++ [fl]) with ((fa :: mid0) ++ [fl]) in Hsa.
+    apply app_inj_tail in Hsa. exact Hsa. }
+  destruct Hsplit0 as [Hsplit0 ->].
+  assert (Hsplit1 : f10 = fb /\ f11 :: tl1 = mid1 ++ [fz]).
+  { rewrite Ho1 in Hsb. injection Hsb as -> Hsb. auto. }
+  destruct Hsplit1 as [-> Hsplit1].
+  assert (Hf11 : e_i2 e0 <= ford f11).
+  { destruct mid1 as [|m1 mid1]; [congruence|]. injection Hsplit1 as -> _.
+    specialize (Hmb m1 (or_introl eq_refl)). apply crossedb_false in Hmb. lia. }
+  (* frames of the intermediate paths *)
+  destruct (pts (sp_path new1)) as [|F10 [|F11 TL1]] eqn:HO1; [discriminate| |].
+  { exfalso. apply (f_equal (@length (Z * Z * bool))) in Hn1. cbn [map length] in Hn1.
+    rewrite map_length, firstn_length, stream_length in Hn1. lia. }
+  assert (HF10 : phys F10 = xx).
+  { pose proof (f_equal (map physE) Hn1) as E1. cbn [map] in E1. injection E1 as E1 _.
+    change (phys F10 = phys f0m2) in E1. congruence. }
+  destruct k0 as [|k0]; [lia|].
+  pose proof (orders_back_prefix n (copy_frame 0 fb) (S k0) ltac:(lia)) as Eg0.
+  destruct (det_stream n (copy_frame 0 fb) true) as [|g0 r0] eqn:Es0; [cbn in Eg0; discriminate|].
+  cbn [firstn rev] in Hn0. rewrite <- app_assoc in Hn0. cbn [app] in Hn0.
+  set (PRE0 := rev (firstn k0 r0)) in *.
+  (* orders of the streams of the second swap *)
+  assert (Hrev : map ord (itraj (S (length pre0)) xx) = rev (map ford (fa :: mid0))).
+  { rewrite <- Hsplit0. unfold xx. rewrite itraj_rev, map_rev. f_equal.
+    replace (S (length pre0)) with (length pre0 + 1)%nat by lia. rewrite traj_app. cbn [SwapM.traj]. fold xx.
+    rewrite !map_app. cbn [map]. rewrite <- Hoa1, <- Hfx. reflexivity. }
+  assert (HS0 : stops_at (e_i0 e0) (e_i2 e0) (det_stream n (copy_frame 0 F10) true) (S (length pre0))).
+  { apply fcross_stops_at; [rewrite stream_length; lia|].
+    rewrite orders_back_prefix by lia. change (phys (copy_frame 0 F10)) with (phys F10). rewrite HF10, Hrev.
+    cbn [map rev]. exists (rev (map ford mid0)), (ford fa). split; [reflexivity|]. split; [|exact Hca].
+    intros o Ho. apply in_rev, in_map_iff in Ho as (f & <- & Hf). apply (Hma _ Hf). }
+  assert (HS1 : stops_at (e_i0 e1) (e_i2 e1) (det_stream n (copy_frame 0 (dump idump DSecond f11)) false) (S (length tl1))).
+  { apply fcross_stops_at; [rewrite stream_length; lia|].
+    rewrite orders_forw_prefix by lia. change (phys (copy_frame 0 (dump idump DSecond f11))) with (phys f11).
+    rewrite Hb1. cbn [SwapM.traj map]. rewrite <- Hfb1, <- Hfbt.
+    change (ford f11 :: map ford tl1) with (map ford (f11 :: tl1)). rewrite Hsplit1, map_app.
+    exists (map ford mid1), (ford fz). split; [reflexivity|]. split; [|exact Hcz].
+    intros o Ho. apply in_map_iff in Ho as (f & <- & Hf). apply (Hmb _ Hf). }
+  assert (Hlenm0 : length (fa :: mid0) = S (length pre0)).
+  { rewrite <- Hsplit0, app_length. cbn. lia. }
+  assert (Hmid0len : (1 <= length mid0)%nat) by (destruct mid0; [congruence|cbn; lia]).
+  cbn [length] in Hlenm0.
+  assert (Htl1 : (1 <= length tl1)%nat).
+  { apply (f_equal (@length frame)) in Hsplit1. rewrite app_length in Hsplit1. cbn [length] in Hsplit1.
+    destruct mid1; [congruence|]. cbn [length] in Hsplit1. lia. }
+  (* the second swap *)
+  assert (Hio0 : orders (sp_path new0) = map ford PRE0 ++ [ford g0; ford f11]).
+  { unfold orders. rewrite Hn0, map_app. reflexivity. }
+  destruct (retis_swap_complete idump e0 e1 new0 new1
+              (det_stream n (copy_frame 0 F10) true) (det_stream n (copy_frame 0 (dump idump DSecond f11)) false) [] []
+              F10 F11 TL1 PRE0 g0 (dump idump DSecond f11) (S (length pre0)) (S (length tl1)))
+    as (path1 & _ & _ & _ & Hres); try assumption; try lia.
+  - unfold end_point. rewrite Hio0. destruct (Z.ltb_spec (e_i2 e0) (e_i0 e0)); [lia|].
+    rewrite rev_app_distr. cbn [rev app]. unfold classify.
+    destruct (Z.leb_spec (ford f11) (e_i0 e0)); [lia|]. destruct (Z.leb_spec (e_i2 e0) (ford f11)); [reflexivity|lia].
+  - destruct (lm1_early e0 (sp_path new0)) eqn:El; [|reflexivity].
+    apply (lm1_early_spec _ _ Hio) in El as (_ & _ & pre & o & E & Ho). rewrite Hio0 in E.
+    change (map ford PRE0 ++ [ford g0; ford f11]) with (map ford PRE0 ++ [ford g0] ++ [ford f11]) in E.
+    rewrite app_assoc in E. apply app_inj_tail in E as [_ E]. lia.
+  - intros HL. eapply (has_L_false _ _ (ford fa) (map ford mid0) (ford F11) Hio).
+    + unfold orders. cbn [pts]. rewrite map_app, map_rev, orders_back_prefix by lia.
+      change (phys (copy_frame 0 F10)) with (phys F10). rewrite HF10, Hrev, rev_involutive. reflexivity.
+    + specialize (HscL HL). lia.
+    + pose proof (f_equal (map (fun e : Z * Z * bool => fst (fst e))) Hn1) as E2.
+      cbn [map] in E2. rewrite <- !map_ford_erase in E2. rewrite orders_forw_prefix in E2 by lia.
+      destruct k1 as [|k1]; [lia|]. cbn [SwapM.traj map] in E2. injection E2 as _ E2 _.
+      change (phys (copy_frame 0 fl)) with (phys fl) in E2. rewrite E2, Hx', <- Hfx'. lia.
+  - unfold SwapM.det_retis. unfold first_frame, last_frame. rewrite HO1, Hn0.
+    change (PRE0 ++ [g0; dump idump DSecond f11]) with (PRE0 ++ [g0] ++ [dump idump DSecond f11]).
+    rewrite app_assoc, rev_app_distr. cbn [rev app nth_error].
+    eexists _, _, _. exact Hres.
+Qed.
+
+(* both together: under the hypotheses above, swapping twice is the identity on the order sequences *)
+Theorem swap_twice_restores n e0 e1 old0 old1 a0 b0 new0 new1 st calls nd :
+  phys_path a0 (sp_path old0) -> phys_path b0 (sp_path old1) ->
+  minus_valid e0 (sp_path old0) -> plus_valid e1 (sp_path old1) ->
+  (e_maxlen e0 <= e_maxlen e1)%nat ->
+  (plen (sp_path old0) < e_maxlen e0)%nat -> (plen (sp_path old1) < e_maxlen e1)%nat ->
+  (plen (sp_path old0) - 1 <= n)%nat -> (plen (sp_path old1) - 1 <= n)%nat ->
+  e_i0 e0 <= e_i1 e0 <= e_i2 e0 -> e_i0 e0 < e_i2 e0 -> e_i2 e0 = e_i0 e1 ->
+  is_wf (e_move e0) || is_wf (e_move e1) = false ->
+  det_retis n e0 e1 old0 old1 = Out true new0 new1 st calls nd ->
+  exists new0' new1' calls',
+    det_retis n e0 e1 new0 new1 = Out true new0' new1' ACC calls' 0 /\
+    orders (sp_path new0') = orders (sp_path old0) /\ orders (sp_path new1') = orders (sp_path old1).
+Proof.
+  intros Ha Hb Hm Hp Hml H1 H2 H3 H4 H5 H6 H7 H8 D1.
+  destruct (swap_back_accepted n e0 e1 old0 old1 a0 b0 new0 new1 st calls nd Ha Hb Hm Hp Hml H1 H2 H3 H4 H5 H6 H7 H8 D1)
+    as (new0' & new1' & calls' & D2).
+  exists new0', new1', calls'. split; [exact D2|].
+  eapply swap_twice_id; try eassumption; [apply minus_valid_shape|apply plus_valid_shape]; assumption.
+Qed.
+
+End Rev.
+
+(* ================================================================== corollaries stated on the move itself *)
+
+Section Corollaries.
+Variable dumpf : dlabel -> Z -> Z.
+
+(* the engine contract used by the order-parameter form of the junction: the first frame an
+   engine call produces carries the order parameter of the phase point it was started from *)
+Definition first_frame_honest (streams : list (list frame)) (calls : list call) : Prop :=
+  forall k c s g, nth_error calls k = Some c -> nth_error streams k = Some s -> hd_error s = Some g ->
+                  ford g = ford (c_init c).
+
+Theorem retis_swap_junction e0 e1 old0 old1 streams draws sp0 sp1 st calls nd :
+  retis_swap_zero dumpf e0 e1 old0 old1 streams draws = Out true sp0 sp1 st calls nd ->
+  first_frame_honest streams calls ->
+  lastn 2 (orders (sp_path sp0)) = firstn 2 (orders (sp_path old1)) /\
+  firstn 2 (orders (sp_path sp1)) = lastn 2 (orders (sp_path old0)).
+Proof.
+  intros H Hh. apply retis_acc_struct in H as (_ & _ & _ & Hsh).
+  eapply retis_junction_orders; eassumption.
+Qed.
+
+Theorem retis_swap_junction_frames e0 e1 old0 old1 streams draws sp0 sp1 st calls nd :
+  retis_swap_zero dumpf e0 e1 old0 old1 streams draws = Out true sp0 sp1 st calls nd ->
+  exists f10 f11 tl1 pre0 f0m2 f0l g0 r0 g1 r1 rest back forw,
+    pts (sp_path old1) = f10 :: f11 :: tl1 /\ pts (sp_path old0) = pre0 ++ [f0m2; f0l] /\
+    streams = (g0 :: r0) :: (g1 :: r1) :: rest /\
+    pts (sp_path sp0) = back ++ [g0; dump dumpf DSecond f11] /\
+    map erase (pts (sp_path sp1)) = erase (dump dumpf DSecondLast f0m2) :: erase g1 :: forw /\
+    map c_init calls = [copy_frame 0 f10; copy_frame 0 f0l] /\ map c_rev calls = [true; false].
+Proof.
+  intros H. apply retis_acc_struct in H as (_ & _ & _ & Hsh).
+  eapply retis_junction_frames; eassumption.
+Qed.
+
+Theorem retis_swap_valid_move e0 e1 old0 old1 streams draws sp0 sp1 st calls nd :
+  retis_swap_zero dumpf e0 e1 old0 old1 streams draws = Out true sp0 sp1 st calls nd ->
+  (e_maxlen e0 <= e_maxlen e1)%nat ->
+  e_i0 e0 <= e_i1 e0 <= e_i2 e0 ->
+  (forall f10 f11 tl, pts (sp_path old1) = f10 :: f11 :: tl -> e_i2 e0 <= ford f11) ->
+  (forall pre a b, pts (sp_path old0) = pre ++ [a; b] -> ford a <= e_i0 e1) ->
+  (exists a mid b, orders (sp_path sp0) = a :: mid ++ [b] /\ mid <> [] /\
+     (3 <= plen (sp_path sp0) < e_maxlen e0)%nat /\
+     (a < e_i0 e0 \/ e_i2 e0 < a) /\ (e_scL e0 = false -> e_i2 e0 < a) /\
+     (forall o, In o mid -> e_i0 e0 <= o <= e_i2 e0) /\ e_i2 e0 <= b) /\
+  (exists a mid b, orders (sp_path sp1) = a :: mid ++ [b] /\ mid <> [] /\
+     (3 <= plen (sp_path sp1) < e_maxlen e1)%nat /\
+     a <= e_i0 e1 /\ (forall o, In o mid -> e_i0 e1 <= o <= e_i2 e1) /\
+     (b < e_i0 e1 \/ e_i2 e1 < b)).
+Proof.
+  intros H. apply retis_acc_struct in H as (_ & _ & _ & Hsh).
+  eapply retis_swap_valid; eassumption.
+Qed.
+
+(* an accepted swap made exactly two engine calls and never took the early exit *)
+Theorem retis_acc_two_calls e0 e1 old0 old1 streams draws sp0 sp1 st calls nd :
+  retis_swap_zero dumpf e0 e1 old0 old1 streams draws = Out true sp0 sp1 st calls nd ->
+  length calls = 2%nat /\ lm1_early e0 (sp_path old0) = false /\
+  end_point (sp_path old0) (e_i0 e0) (e_i2 e0) = Some SR.
+Proof.
+  intros H. apply retis_acc_struct in H as (_ & _ & _ & Hsh).
+  destruct Hsh as (f10 & f11 & tl1 & pre0 & f0m2 & f0l & s0 & s1 & rest & k0 & k1 & _ & _ & _ & _ & _ & _ & _ & _ & _ &
+          _ & _ & _ & _ & _ & _ & _ & _ & _ & Hep & Hearly & ->).
+  repeat split; assumption.
+Qed.
+
+End Corollaries.
+
+(* ================================================================== QuanTIS: junction of an accepted swap *)
+
+Lemma firstn_short {A} m (l : list A) : (length (firstn m l) < m)%nat -> firstn m l = l.
+Proof. intros H. rewrite firstn_length in H. apply firstn_all2. lia. Qed.
+
+Lemma end_is_R1_spec p l : end_is_R1 p l = true -> exists pre f, pts p = pre ++ [f] /\ l < ford f.
+Proof.
+  unfold end_is_R1, end_point, orders. destruct (Z.ltb_spec l l); [lia|].
+  destruct (rev (map ford (pts p))) as [|x t] eqn:E; [discriminate|].
+  rewrite <- map_rev in E. destruct (rev (pts p)) as [|f t'] eqn:E'; [discriminate|]. cbn in E. injection E as <- _.
+  apply rev_cons_shape in E'. unfold classify. cbn [opt_is_R].
+  destruct (Z.leb_spec (ford f) l); [discriminate|]. intros _. exists (rev t'), f. split; [exact E'|lia].
+Qed.
+
+Section QJ.
+Variable vpot_of : Z -> option Q.
+Variable expf : Q -> Q.
+
+(* what an accepted quantis_complete determines *)
+Lemma quantis_complete_acc e0 e1 tmp0 tmp1 sc streams calls nd p0 p1 st calls' nd' :
+  quantis_complete e0 e1 tmp0 tmp1 sc streams calls nd = Out true p0 p1 st calls' nd' ->
+  (plen tmp1 <= maxlen tmp1)%nat ->
+  exists t00 t1l s2 s3 rest k2 k3,
+    first_frame tmp0 = Some t00 /\ last_frame tmp1 = Some t1l /\ streams = s2 :: s3 :: rest /\
+    pts (sp_path p0) = rev (firstn k2 s2) ++ tl (pts tmp0) /\
+    map erase (pts (sp_path p1)) = map erase (pts tmp1) ++ map erase (tl (firstn k3 s3)) /\
+    (1 <= k2 <= length s2)%nat /\ (1 <= k3 <= length s3)%nat /\
+    (3 <= plen (sp_path p0) < e_maxlen e0)%nat /\ (3 <= plen (sp_path p1) < e_maxlen e0)%nat /\
+    e_i2 e0 <= ford t1l /\
+    calls' = calls ++ [mkCall (copy_frame 0 t00) true (e_i0 e0) (e_i2 e0) (e_maxlen e0 - 1) k2;
+                       mkCall (copy_frame 0 t1l) false (e_i0 e1) (e_i2 e1) (e_maxlen e0 - 1) k3].
+Proof.
+  unfold quantis_complete. intros H Htmp1.
+  destruct (first_frame tmp0) as [t00|] eqn:Et00; [|discriminate].
+  destruct (negb sc); [discriminate|].
+  destruct (engine_call _ streams _ true _ _) as [[[back0 str1] c2]|] eqn:E2; [|discriminate].
+  set (new0 := paste back0 tmp0 true (Some (e_maxlen e0))) in *.
+  destruct (Nat.leb_spec (e_maxlen e0) (plen new0)) as [|Hlt0]; [discriminate|].
+  destruct (Nat.ltb_spec (plen new0) 3) as [|Hge0]; [discriminate|].
+  destruct (negb (e_scL e0) && has_L_start_end new0 e0); [discriminate|]. cbn [is_acc negb] in H.
+  destruct (last_frame tmp1) as [t1l|] eqn:Et1l; [|discriminate].
+  destruct (Z.ltb_spec (ford (copy_frame 0 t1l)) (e_i2 e0)) as [|Hge]; [discriminate|].
+  destruct (engine_call _ str1 _ false _ _) as [[[forw1 str2] c3]|] eqn:E3; [|discriminate].
+  set (new1 := paste (reverse 0 tmp1 false) forw1 true (Some (e_maxlen e0))) in *.
+  destruct (start_point new1 _ _) as [sp|]; [|discriminate].
+  destruct (Nat.eqb_spec (plen new1) (e_maxlen e0)) as [|Hne1]; [discriminate|].
+  destruct (Nat.ltb_spec (plen new1) 3) as [|Hge1]; [discriminate|].
+  destruct sp; cbn [negb is_acc] in H; try discriminate.
+  inversion H; subst; clear H. cbn [sp_path].
+  apply engine_call_inv in E2. destruct E2 as (s2 & k2 & -> & Ep2 & _ & _ & Hk2 & Hk2l & _ & _ & ->).
+  apply engine_call_inv in E3. destruct E3 as (s3 & k3 & -> & Ep3 & _ & _ & Hk3 & Hk3l & _ & _ & ->).
+  exists t00, t1l, s2, s3, str2, k2, k3.
+  split; [reflexivity|]. split; [reflexivity|]. split; [reflexivity|].
+  assert (Hp0 : pts new0 = rev (firstn k2 s2) ++ tl (pts tmp0)).
+  { pose proof (paste_pts back0 tmp0 true (e_maxlen e0)) as Hp. fold new0 in Hp. unfold forw_part in Hp. rewrite Ep2 in Hp.
+    rewrite Hp. apply firstn_short. rewrite <- Hp. exact Hlt0. }
+  assert (Hp1 : pts new1 = rev (pts (reverse 0 tmp1 false)) ++ tl (firstn k3 s3)).
+  { pose proof (paste_pts (reverse 0 tmp1 false) forw1 true (e_maxlen e0)) as Hp. fold new1 in Hp. unfold forw_part in Hp. rewrite Ep3 in Hp.
+    rewrite Hp. apply firstn_short. rewrite <- Hp.
+    assert (plen new1 <= e_maxlen e0)%nat.
+    { unfold plen. rewrite Hp, firstn_length. lia. }
+    unfold plen in *. lia. }
+  split; [exact Hp0|].
+  split.
+  { rewrite Hp1, map_app, map_rev, (reverse_frames 0 tmp1 false Htmp1), rev_involutive. reflexivity. }
+  split; [lia|]. split; [lia|]. split; [lia|].
+  split.
+  { assert (plen new1 <= e_maxlen e0)%nat.
+    { unfold plen. pose proof (paste_pts (reverse 0 tmp1 false) forw1 true (e_maxlen e0)) as Hp. fold new1 in Hp. rewrite Hp, firstn_length. lia. }
+    lia. }
+  split; [cbn [copy_frame ford] in Hge; exact Hge|].
+  rewrite <- app_assoc. reflexivity.
+Qed.
+
+
+(* The junction of an accepted QuanTIS swap, as order parameters, for engines whose first frame
+   carries the order parameter of the phase point they were started from: the new [0-] path
+   ends with (old[0+][0], its one-step successor H0 computed by engine 0) and the new [0+] path
+   starts with (old[0-][-2], its one-step successor H1 computed by engine 1); both junctions
+   cross lambda_0 in that one step.  Both new paths have between 3 and maxlength-1 frames and
+   exactly four engine calls were made. *)
+Theorem quantis_junction e0 e1 b0 b1 old0 old1 streams draws p0 p1 st calls nd :
+  quantis_swap_zero vpot_of expf e0 e1 b0 b1 old0 old1 streams draws = Out true p0 p1 st calls nd ->
+  first_frame_honest streams calls ->
+  exists f10 f0m2 g0 H0 r0 g1 H1 r1 srest back forw,
+    first_frame (sp_path old1) = Some f10 /\ last2_frame (sp_path old0) = Some f0m2 /\
+    streams = (g0 :: H0 :: r0) :: (g1 :: H1 :: r1) :: srest /\
+    orders (sp_path p0) = back ++ [ford f10; ford H0] /\
+    orders (sp_path p1) = ford f0m2 :: ford H1 :: forw /\
+    ford f10 < e_i2 e0 < ford H0 /\ ford f0m2 < e_i2 e0 < ford H1 /\
+    (3 <= plen (sp_path p0) < e_maxlen e0)%nat /\ (3 <= plen (sp_path p1) < e_maxlen e0)%nat /\
+    st = ACC /\ length calls = 4%nat.
+Proof.
+  unfold quantis_swap_zero.
+  destruct (first_frame (sp_path old1)) as [f10|] eqn:Ef10; [|discriminate].
+  destruct (last2_frame (sp_path old0)) as [f0m2|] eqn:Ef0m2; [|discriminate].
+  destruct (is_none _ || is_none _); [discriminate|].
+  destruct (Z.ltb_spec (ford (copy_frame 0 f10)) (e_i2 e0)) as [HL0|]; [|discriminate].
+  destruct (Z.ltb_spec (ford (copy_frame 0 f0m2)) (e_i2 e0)) as [HL1|]; [|discriminate].
+  cbn [negb orb copy_frame ford] in *.
+  destruct (engine_call (empty_path 2 0) streams _ false _ _) as [[[tmp0 str1] c0]|] eqn:E0; [|discriminate].
+  destruct (end_is_R1 tmp0 (e_i2 e0)) eqn:ER0; cbn [negb]; [|discriminate].
+  destruct (engine_call (empty_path 2 0) str1 _ false _ _) as [[[tmp1 str2] c1]|] eqn:E1; [|discriminate].
+  destruct (end_is_R1 tmp1 (e_i2 e0)) eqn:ER1; cbn [negb]; [|discriminate].
+  destruct (quantis_energies _ _ _ _ _) as [en|]; [|discriminate].
+  destruct draws as [|u drest]; [discriminate|].
+  intros H Hhon.
+  assert (Hc : quantis_complete e0 e1 tmp0 tmp1 true str2 [c0; c1] 1 = Out true p0 p1 st calls nd).
+  { destruct (e_accept_all e0 || Qle_bool u _); [exact H|discriminate]. }
+  clear H.
+  apply engine_call_inv in E0. destruct E0 as (s0 & k0 & -> & Ep0 & Em0 & _ & Hk0 & Hk0l & _ & Hst0 & ->).
+  apply engine_call_inv in E1. destruct E1 as (s1 & k1 & -> & Ep1 & Em1 & _ & Hk1 & Hk1l & _ & Hst1 & ->).
+  pose proof Hc as Hst. apply quantis_complete_status in Hst as (_ & _ & Hst & _). specialize (Hst eq_refl).
+  apply quantis_complete_acc in Hc; [|unfold plen; rewrite Ep1, Em1, firstn_length; lia].
+  destruct Hc as (t00 & t1l & s2 & s3 & rest & k2 & k3 & Et00 & Et1l & -> & Hp0 & Hp1 & Hk2 & Hk3 & Hl0 & Hl1 & _ & ->).
+  cbn [app] in Hhon.
+  apply end_is_R1_spec in ER0 as (pre0 & l0 & El0 & Hl0R). apply end_is_R1_spec in ER1 as (pre1 & l1 & El1 & Hl1R).
+  destruct s0 as [|g0 r0]; [cbn in Hk0l; lia|]. destruct s1 as [|g1 r1]; [cbn in Hk1l; lia|].
+  assert (Hg0 : ford g0 = ford f10) by (apply (Hhon 0%nat _ _ g0 eq_refl eq_refl eq_refl)).
+  assert (Hg1 : ford g1 = ford f0m2) by (apply (Hhon 1%nat _ _ g1 eq_refl eq_refl eq_refl)).
+  (* both one-step paths have two frames *)
+  destruct k0 as [|[|k0]]; [lia| |].
+  { exfalso. rewrite Ep0 in El0. cbn [firstn] in El0. destruct pre0 as [|? [|]]; try discriminate.
+    injection El0 as <-. lia. }
+  destruct k1 as [|[|k1]]; [lia| |].
+  { exfalso. rewrite Ep1 in El1. cbn [firstn] in El1. destruct pre1 as [|? [|]]; try discriminate.
+    injection El1 as <-. lia. }
+  assert (k0 = 0%nat) by lia. assert (k1 = 0%nat) by lia. subst k0 k1.
+  destruct r0 as [|H0 r0]; [cbn in Hk0l; lia|]. destruct r1 as [|H1 r1]; [cbn in Hk1l; lia|].
+  cbn [firstn] in Ep0, Ep1.
+  rewrite Ep0 in El0, Hp0. rewrite Ep1 in El1, Hp1.
+  assert (l0 = H0).
+  { change [g0; H0] with ([g0] ++ [H0]) in El0. apply app_inj_tail in El0. symmetry. apply El0. }
+  assert (l1 = H1).
+  { change [g1; H1] with ([g1] ++ [H1]) in El1. apply app_inj_tail in El1. symmetry. apply El1. }
+  subst l0 l1.
+  unfold first_frame in Et00. rewrite Ep0 in Et00. injection Et00 as <-.
+  destruct s2 as [|G2 r2]; [cbn in Hk2; lia|].
+  assert (HG2 : ford G2 = ford g0) by (apply (Hhon 2%nat _ _ G2 eq_refl eq_refl eq_refl)).
+  destruct k2 as [|k2]; [lia|]. cbn [firstn rev tl] in Hp0. rewrite <- app_assoc in Hp0. cbn [app] in Hp0.
+  exists f10, f0m2, g0, H0, r0, g1, H1, r1, (( G2 :: r2) :: s3 :: rest), (map ford (rev (firstn k2 r2))),
+         (map (fun e : Z * Z * bool => fst (fst e)) (map erase (tl (firstn k3 s3)))).
+  split; [reflexivity|]. split; [reflexivity|]. split; [reflexivity|].
+  split; [unfold orders; rewrite Hp0, map_app; cbn [map]; rewrite HG2, Hg0; reflexivity|].
+  split; [unfold orders; rewrite map_ford_erase, Hp1, map_app; cbn [map erase fst app]; rewrite Hg1; reflexivity|].
+  split; [lia|]. split; [lia|]. split; [exact Hl0|]. split; [exact Hl1|]. split; [exact Hst|reflexivity].
+Qed.
+
+End QJ.
+
+(* ------------------------------------------------------------------ a concrete instance (for the Examples) *)
+(* states = (time on one fixed trajectory, direction of time); one step moves along the
+   trajectory, velocity reversal flips the direction; the order parameter is a table lookup *)
+Module Clock.
+Definition X : Type := Z * bool.
+Definition T (s : X) : X := let '(t, d) := s in (if d then t - 1 else t + 1, d).
+Definition R (s : X) : X := let '(t, d) := s in (t, negb d).
+Definition table : list Z := [3; 1; 0; 3; 4; 1; 4; 0; 1; 3; 3; 6].
+Definition ord (s : X) : Z := nth (Z.to_nat (fst s + 3)) table 9.
+Definition enc (s : X) : Z := let '(t, d) := s in Z.b2z d + 2 * t.
+Definition dec (z : Z) : X := (Z.div2 z, Z.odd z).
+
+Lemma RR x : R (R x) = x.
+Proof. destruct x as [t d]. cbn. rewrite negb_involutive. reflexivity. Qed.
+Lemma RT x : R (T (R (T x))) = x.
+Proof. destruct x as [t []]; cbn; f_equal; lia. Qed.
+Lemma ordR x : ord (R x) = ord x.
+Proof. destruct x as [t d]. reflexivity. Qed.
+Lemma decenc x : dec (enc x) = x.
+Proof.
+  destruct x as [t d]. unfold dec, enc. f_equal.
+  - rewrite Z.div2_div. apply Z.add_b2z_double_div2.
+  - rewrite <- Z.bit0_odd. apply Z.add_b2z_double_bit0.
+Qed.
+
+Definition fr (t : Z) : frame := mkF (ord (t, false)) (enc (t, false)) false 0.
+Definition e0 : ens := mkEns (-100) 2 2 false true Msh 10 None false.
+Definition e1 : ens := mkEns 2 2 5 true false Msh 10 None false.
+Definition old0 : spath := mkSP (mkP (map fr [-3; -2; -1; 0]) 10 0) ACC 1.
+Definition old1 : spath := mkSP (mkP (map fr [5; 6; 7; 8]) 10 0) ACC 1.
+End Clock.
+
